@@ -31,9 +31,33 @@ def main(argv=None):
     try:
         rule_fns = mod.rules(a.repo)
         if a.replay:
+            # re-run just the rule instance recorded in the replay file on the current tree
             with open(a.replay) as f:
                 rp = json.load(f)
-            print("replaying rule %s construct %r" % (rp.get("rule"), rp.get("construct")))
+            print("replaying rule %s construct %r (%s:%s %s)" % (rp.get("rule"), rp.get("construct"), rp.get("file"),
+                                                              rp.get("line"), rp.get("function")))
+            still = []
+            for fn in rule_fns:
+                try:
+                    res = fn()
+                except core.AnalysisError as e:
+                    print("ANALYSIS-ERROR property=%s %s" % (prop, e))
+                    return 2
+                for r in ([res] if isinstance(res, core.Rule) else res):
+                    if r.rid != rp.get("rule"):
+                        continue
+                    for f_ in r.findings:
+                        if f_.key(prop) == rp.get("key"):
+                            still.append(f_)
+            if still:
+                f_ = still[0]
+                print("   violation: %s:%s %s [%s] %s -- %s" % (f_.file, f_.line, f_.function, f_.rule, f_.construct, f_.message))
+                for step in (f_.path or []):
+                    print("      path: %s" % (step,))
+                print("VIOLATION property=%s replay=%s" % (prop, a.replay))
+                return 1
+            print("the recorded construct is no longer reported by %s on this tree" % rp.get("rule"))
+            return 0
         thorough_fn = None
         if a.tier == "thorough":
             from . import selftest
